@@ -22,6 +22,7 @@ type IterData struct {
 	Vals  []Value
 	Str   StrV
 	Pos   int
+	Rev   bool // map order mode 3: this range statement walks the entries backwards
 }
 
 type ObjData struct {
@@ -55,6 +56,9 @@ type Frame struct {
 type PanicInfo struct {
 	Val Value
 	Msg string
+	// Hold > 0: a deferred call invoked by the unwinding is running in the
+	// frames from depth Hold up; unwinding resumes when it has returned
+	Hold int
 }
 
 type Spec struct {
@@ -97,7 +101,7 @@ type State struct {
 	EndKind    string // "ok", "dead", "panic", "unsupported", "budget"
 	EndMsg     string
 	Choices    []string
-	MapOrder   int // 0: insertion, 1: fwd/rev single choice, 2: all permutations
+	MapOrder   int // 0: insertion, 1: fwd/rev single choice, 2: all permutations, 3: successive range statements alternate between forwards and backwards
 	OrderPick  int // -1 undecided, 0 forward, 1 reverse (mode 1)
 	Counters   map[string]int
 	Depth      int // number of forks on this path
